@@ -170,6 +170,25 @@ pub async fn set_node<C: Config>(
     s.set_input(In(n as u16), v).await
 }
 
+/// The engine's id of program node `i` (same hasher seed as the engine).
+pub fn node_query_id(prog: &crate::dsl::Program, i: usize) -> qbice::query::QueryID {
+    use qbice::stable_hash::{BuildStableHasher, StableHash, StableHasher};
+    fn id<Q: qbice::query::Query>(q: &Q) -> qbice::query::QueryID {
+        let b = SeededStableHasherBuilder::<Sip128Hasher>::new(HASH_SEED);
+        let mut h = b.build_stable_hasher();
+        q.stable_hash(&mut h);
+        qbice::query::QueryID::new::<Q>(h.finish().into())
+    }
+    let k = i as u16;
+    match prog.kind(i) {
+        Kind::In => id(&In(k)),
+        Kind::Nm => id(&Nm(k)),
+        Kind::Fw => id(&Fw(k)),
+        Kind::Pj => id(&Pj(k)),
+        Kind::Ex => id(&Ex(k)),
+    }
+}
+
 /// Sequential driver state over one engine.
 pub struct Driver<C: Config> {
     pub ctx: Arc<Ctx>,
@@ -240,6 +259,33 @@ impl<C: Config> Driver<C> {
                 }
             }
             Action::Restart => unreachable!("restart handled by caller"),
+        }
+    }
+
+    /// Record what the engine has stored about every node (drift
+    /// measurement against specs/EngineSeq.tla; never a verdict).
+    pub async fn dump_all(&self) {
+        let prog = &self.ctx.prog;
+        let ids: Vec<_> = (0..prog.n()).map(|i| node_query_id(prog, i)).collect();
+        let node_of = |q: &qbice::query::QueryID| ids.iter().position(|x| x == q).map_or(0, |p| p + 1);
+        for i in 0..prog.n() {
+            let d = self.engine().verif_dump(&ids[i]).await;
+            let mut tfc: Vec<usize> = d.transitive_firewall_callees.iter().map(node_of).collect();
+            let mut dirty: Vec<usize> = d.dirty.iter().map(node_of).collect();
+            let mut back: Vec<usize> = d.backward.iter().map(node_of).collect();
+            tfc.sort_unstable();
+            dirty.sort_unstable();
+            back.sort_unstable();
+            self.ctx.rec.push(Event::Dump {
+                n: i + 1,
+                lv: d.last_verified.map_or(-1, |x| x as i64),
+                cur: d.current_timestamp as i64,
+                fwd: d.forward.iter().map(node_of).collect(),
+                tfc,
+                dirty,
+                back,
+                pbp: d.pending_backward_projection.map_or(-1, |x| x as i64),
+            });
         }
     }
 
